@@ -65,4 +65,77 @@ PROPS = {
                       "runs use (maximum observed is in the evidence); purity is compared on "
                       "normalised outcomes (value, monochrome text).",
     },
+    "C02": {
+        "cases": {"quick": 960, "thorough": 48000},
+        "rule": "Per case one random any-free definition (hidden items, aliases, non-ASCII names, "
+                "adjacent-restricted arguments, groups, commands) x derivations with hostile "
+                "values (empty, `=`, leading dashes, spaces, non-ASCII, invalid UTF-8 for "
+                "OS-string/path targets); each derivation is run in its canonical spelling and in "
+                "random respellings of the same units in the same order (five argument spellings, "
+                "aliases, clusters, cluster ending in a short argument); outcomes of the pair are "
+                "compared, values compared byte-exact with the derivation. " + DISTINCT,
+        "assumptions": COMMON_ASSUMPTIONS + [
+            "Spellings the statement does not list as interchangeable are not generated: "
+            "`-ab=VALUE`, `-nVALUE` with an empty value or one starting with `=`, detached values "
+            "starting with `-`.",
+            "For failing lines only the outcome class is compared (error text quotes the spelling).",
+        ],
+        "must_observe": ["pairs", "spell:LongEq", "spell:ShortJoined", "spell:ShortEq",
+                         "spell:clusters"],
+        "needs_hooks": True,
+        "technique": "runtime monitoring: metamorphic oracle over pairs of real runs (respelling) "
+                     "+ derivation-directed byte-exact value oracle; violations are decomposed "
+                     "into single-spelling substitutions for attribution",
+        "level_text": "Held on the executions observed: every respelled pair gave the same "
+                      "outcome and every accepted canonical line returned exactly the bytes "
+                      "written, for the definitions and value payloads generated.",
+        "level_note": "Trusted: the derivation generator's notion of which spellings are "
+                      "interchangeable (taken from the statement and src/params.rs docs).",
+    },
+    "C03": {
+        "cases": {"quick": 960, "thorough": 48000},
+        "rule": "Per case one random definition without any/adjacent groups x derivations (valid, "
+                "and invalid ones with an occurrence dropped, doubled or a foreign flag added); "
+                "each is linearised in canonical order and in random permutations of its named "
+                "occurrences that keep same-field order, positional order and the side of "
+                "command names and `--`; spelling is identical in both lines. " + DISTINCT,
+        "assumptions": COMMON_ASSUMPTIONS + [
+            "For two failing lines only the outcome class is compared (the message may name a "
+            "different item); differing texts are counted, not judged.",
+        ],
+        "must_observe": ["pairs", "placement:named-between-positionals",
+                         "placement:named-after-positional"],
+        "needs_hooks": True,
+        "technique": "runtime monitoring: metamorphic oracle over pairs of real runs "
+                     "(permutation of named occurrences) + derivation-directed value oracle",
+        "level_text": "Held on the executions observed: canonical order and every sampled "
+                      "permutation gave equal outcomes.",
+        "level_note": "Trusted: order_units produces only permutations the statement allows.",
+    },
+    "C05": {
+        "cases": {"quick": 960, "thorough": 48000},
+        "rule": "Per case one random any-free definition x accepted derivations; every accepted "
+                "line must return exactly the denoted value (conservation/attribution with unique "
+                "tokens) and, with one foreign flag / `--name=value` / surplus word / duplicate "
+                "of a single-use occurrence / `=junk` on a flag inserted at the item boundaries "
+                "left of `--`, must fail on stderr. Hooks: the outermost accept event must show "
+                "every item consumed; cached remaining count must equal the ledger at every "
+                "remove/set_scope. " + DISTINCT,
+        "assumptions": COMMON_ASSUMPTIONS + [
+            "Surplus words are only inserted where the active level declares no positional or "
+            "command at all (elsewhere a word may legitimately be claimed).",
+        ],
+        "must_observe": ["class:accepted-line", "class:insert:foreign-long",
+                         "class:insert:foreign-short", "class:insert:flag-with-value",
+                         "class:insert:duplicate-flag", "accept_ledgers_checked"],
+        "needs_hooks": True,
+        "technique": "runtime monitoring: derivation-directed insertion oracle + conservation "
+                     "oracle on unique tokens + invariant hooks on the consumption ledger "
+                     "(accept event, remaining-count check)",
+        "level_text": "Held on the executions observed: no inserted item slipped through, every "
+                      "accepted line was attributed exactly, and the ledger hooks saw no "
+                      "unconsumed item behind a returned value.",
+        "level_note": "Trusted: the hooks read bpaf's own ItemState ledger at the point "
+                      "run_subparser returns Ok.",
+    },
 }
